@@ -1,11 +1,12 @@
 #!/usr/bin/env python3
 """T0b (index widths): every integer-typed declaration of the dataset headers
-  include/shark/Data/Dataset.h, Impl/Dataset.inl, DataView.h, WeightedDataset.h
+  include/shark/Data/Dataset.h, Impl/Dataset.inl, DataView.h, WeightedDataset.h, BatchInterface.h and of
+  include/shark/Core/utility/Iterators.h (IndexingIterator & co: the iterators over the elements of a batch), functional.h (shuffle)
 ->  lean/SharkVerif/Gen/IndexTypes.lean
 
 The Lean models of C03 use unbounded `Nat` for every index, position, size and batch count.  That is faithful to the
 C++ only while the C++ keeps them in `std::size_t` / `std::ptrdiff_t` (and the element count stays below 2^64).  This
-translator parses the four headers with `clang++-14 -Xclang -ast-dump=json` (template *patterns*, no instantiations)
+translator parses these headers with `clang++-14 -Xclang -ast-dump=json` (template *patterns*, no instantiations)
 and lists every field, variable, parameter, typedef, function result and explicit cast whose type is an integer
 type or a `std::vector` of one, with its width.  Entries are split into
 
@@ -24,7 +25,8 @@ import argparse, json, os, re, subprocess, sys, tempfile
 
 HERE = os.path.dirname(os.path.abspath(__file__))
 OUT = os.path.join(os.path.dirname(HERE), "lean", "SharkVerif", "Gen", "IndexTypes.lean")
-FILES = ("shark/Data/Dataset.h", "shark/Data/Impl/Dataset.inl", "shark/Data/DataView.h", "shark/Data/WeightedDataset.h")
+FILES = ("shark/Data/Dataset.h", "shark/Data/Impl/Dataset.inl", "shark/Data/DataView.h", "shark/Data/WeightedDataset.h",
+         "shark/Data/BatchInterface.h", "shark/Core/utility/Iterators.h", "shark/Core/utility/functional.h")
 
 SCALAR = {"unsigned long": (64, False), "std::size_t": (64, False), "size_t": (64, False), "long": (64, True),
           "std::ptrdiff_t": (64, True), "ptrdiff_t": (64, True), "unsigned long long": (64, False), "long long": (64, True),
@@ -44,7 +46,7 @@ LABELS = {("numberOfClasses", ""), ("numberOfClasses", "classes"), ("classSizes"
 OMP = {("transform", "batches"), ("transform", "i"), ("transform", "")}
 
 # members the models / theorems name: (class path suffix, field) -> must be present
-REQUIRED = [("DataView::Index", "batch"), ("DataView::Index", "positionInBatch"), ("DataView::Index", "datasetIndex"),
+REQUIRED = [("IndexingIterator", "m_index"), ("DataView::Index", "batch"), ("DataView::Index", "positionInBatch"), ("DataView::Index", "datasetIndex"),
             ("DataView::IteratorBase", "m_position"),
             ("DataElementIterator", "m_batchPosition"), ("DataElementIterator", "m_elementPosition"),
             ("DataElementIterator", "m_positionInSequence")]
@@ -107,7 +109,7 @@ class Walker:
             if q:
                 c = classify(q)
                 if c:
-                    f = next(x for x in FILES if at[0].endswith(x)).split("shark/Data/")[1]
+                    f = next(x for x in FILES if at[0].endswith(x)).split("shark/", 1)[1].replace("Data/", "", 1)
                     k = {"FieldDecl": "field", "VarDecl": "variable", "ParmVarDecl": "parameter", "TypedefDecl": "typedef",
                          "TypeAliasDecl": "typedef", "CXXMethodDecl": "result", "FunctionDecl": "result", "CXXConversionDecl": "result"}.get(kind, "cast")
                     key = (f, at[1], k, "::".join(ctx), name)
@@ -194,8 +196,20 @@ def main():
     def lst(name, rs, doc):
         body = ",\n".join(dict.fromkeys(render(r) for r in rs))      # no line numbers: unrelated edits of the headers leave the file unchanged
         return f"/-- {doc} -/\ndef {name} : List IntDecl := [\n{body}]\n"
+    # the index declarations in chunks of 40 (`decide` evaluates one chunk at a time), and the obligation per chunk
+    CH = 40
+    irows = list(dict.fromkeys(render(r) for r in rows["index"]))
+    chunks = [irows[i:i + CH] for i in range(0, len(irows), CH)]
+    chunk_defs = "\n".join(f"def indexDecls{i} : List IntDecl := [\n" + ",\n".join(c) + "]\n"
+                           f"theorem indexDecls{i}_are_size_t : indexDecls{i}.all (fun d => d.width == 64) = true := by decide\n"
+                           for i, c in enumerate(chunks))
+    all_def = ("/-- indices, positions, sizes, counts, jumps: everything not recognised as a label or an OpenMP counter -/\n"
+               "def indexDecls : List IntDecl := " + " ++ ".join(f"indexDecls{i}" for i in range(len(chunks))) + "\n")
+    all_proof = "  simp only [indexDecls, List.all_append, Bool.and_eq_true]\n  exact " + \
+        "⟨" * (len(chunks) - 1) + "indexDecls0_are_size_t" + "".join(f", indexDecls{i}_are_size_t⟩" for i in range(1, len(chunks)))
     out = f"""/-
-GENERATED by translate/index_types.py from include/shark/Data/{{Dataset.h, Impl/Dataset.inl, DataView.h, WeightedDataset.h}}
+GENERATED by translate/index_types.py from include/shark/Data/{{Dataset.h, Impl/Dataset.inl, DataView.h, WeightedDataset.h, BatchInterface.h}}
+and include/shark/Core/utility/{{Iterators.h, functional.h}}
 (clang-14 JSON AST, template patterns).  Do not edit; regenerated on every run of the C03 check.
 {len(rows['index'])} index-carrying declarations, {len(rows['label'])} class-label declarations, {len(rows['omp'])} OpenMP batch counters.
 -/
@@ -212,7 +226,8 @@ structure IntDecl where
   width : Nat        -- bits
   signed : Bool
 
-{lst('indexDecls', rows['index'], 'indices, positions, sizes, counts, jumps: everything not recognised as a label or an OpenMP counter')}
+{chunk_defs}
+{all_def}
 {lst('labelDecls', rows['label'], 'class labels (`unsigned int` by the design of `LabeledData<I, unsigned int>`)')}
 {lst('ompCounters', rows['omp'], 'the signed `int` counters of the OpenMP loops over batches in `transform` (assumption: fewer than 2^31 batches)')}
 /-- widths of the three fields of `DataView::Index` (what a view stores per element) -/
@@ -227,7 +242,8 @@ def viewIterPositionBits : Nat := {width_of('DataView::IteratorBase', 'm_positio
 
 /-- OBLIGATION: every index-carrying declaration of the dataset headers is 64 bits wide (`std::size_t` / `std::ptrdiff_t`):
 the unbounded `Nat` of the models is the C++ arithmetic as long as element counts stay below 2^64 -/
-theorem index_fields_are_size_t : indexDecls.all (fun d => d.width == 64) = true := by decide
+theorem index_fields_are_size_t : indexDecls.all (fun d => d.width == 64) = true := by
+{all_proof}
 
 /-- OBLIGATION: the narrow integers that remain are class labels (32 bit unsigned) and OpenMP batch counters (32 bit signed) -/
 theorem narrow_declarations_are_labels_or_omp_counters :
